@@ -210,10 +210,17 @@ def acyclicD (es : List DEdge) : Bool :=
       | some v => go fuel (remaining.filter (· != v)) (es.filter (·.1 != v))
   go (ids.length + 1) ids es
 
-/-- number of nodes on the longest path starting at v (on an acyclic edge list; fuel = number of nodes) -/
-def lpFrom (es : List DEdge) : Nat → String → Nat
-  | 0, _ => 0
-  | fuel + 1, v => 1 + ((es.filter (·.1 == v)).map fun e => lpFrom es fuel e.2).foldl max 0
+/-- number of nodes on the longest path starting at each node of an acyclic edge list: n rounds of relaxation
+    `lp v = 1 + max lp w` over the edges v → w (no path has more than n nodes) -/
+def lpAll (ids : List String) (es : List DEdge) : List (String × Nat) :=
+  let init := ids.map fun v => (v, 1)
+  (List.range ids.length).foldl (fun lp _ =>
+    lp.map fun (v, _) => (v, 1 + ((es.filter (·.1 == v)).map fun e => lookupD 0 lp e.2).foldl max 0)) init
+
+def lpFrom (es : List DEdge) (n : Nat) (v : String) : Nat :=
+  let ids := dedup (v :: es.flatMap fun e => [e.1, e.2])
+  let _ := n
+  lookupD 1 (lpAll ids es) v
 
 /-- C11: per component, bands = nodes on a longest path; a node is lp(v) − 1 bands above the bottom band -/
 def c11 (o : Out) : Bool :=
@@ -221,8 +228,10 @@ def c11 (o : Out) : Bool :=
   acyclicD es &&
   (comps o).all fun c =>
     let ns := (compNodes o c).filter (!·.virt)
-    let n := ns.length
-    let lps := ns.map fun v => lpFrom es n v.id
+    let ids := ns.map (·.id)
+    let ces := es.filter fun e => ids.contains e.1
+    let tab := lpAll ids ces
+    let lps := ns.map fun v => lookupD 1 tab v.id
     let maxlp := lps.foldl max 0
     let bottom := (ns.map (·.layer)).foldl max 0
     let top := (ns.map (·.layer)).foldl min bottom
